@@ -53,6 +53,11 @@ def main(tier, only=None):
         for h in ('ww', 'www', 'wwrw', 'wrww', 'wwww'):
             code = sum((1 if c == 'w' else 2) << (2 * i) for i, c in enumerate(h))
             shapes.append(('hx_files', [pol | 4, lim, gens, code], 'names/%s/limit%d/gens%d/%s' % ('counted' if pol == 0 else 'maxsize', lim, gens, h)))
+    # size-limited files, texts that may end with a newline themselves (limit >= 2 messages of the longest kind)
+    for (lim, gens) in ((10, 2),) if tier == 'quick' else ((10, 2), (12, 3)):
+        for h in ('ww', 'www', 'wwrw', 'wrww') if tier == 'quick' else ('ww', 'www', 'wwww', 'wwrw', 'wrww'):
+            code = sum((1 if c == 'w' else 2) << (2 * i) for i, c in enumerate(h))
+            shapes.append(('hx_files', [1 | 8, lim, gens, code], 'newline-texts/maxsize/limit%d/gens%d/%s' % (lim, gens, h)))
     if only:
         shapes = [s for s in shapes if re.search(only, s[2])]
     model = os.path.join(HERE, 'verif_fstream_model.hpp')
